@@ -108,6 +108,8 @@ def check_forms(acc, src, tmpdir, deep):
                           size=len(src))
             return
     acc.ok(hash(('form', src)), cls='forms')
+    if acc.evals % 499 == 1:
+        acc.sample({'part': 1, 'src': src, 'forms': [f[0] for f in forms_of(src, tmpdir, deep)][:6]})
 
 
 # ---------------------------------------------------------------------------------------------
@@ -179,6 +181,8 @@ def check_orders(acc, table_key, part=0, parts=1):
                     setattr(mod, name, val)
             acc.ok(hash(('order', label, e)), cls='orders')
             acc.extra['orders'] += 1
+            if acc.extra['orders'] == 1:
+                acc.sample({'part': 2, 'table': label, 'first_element': e, 'inputs': corpus[:3]})
 
 
 # ---------------------------------------------------------------------------------------------
@@ -330,6 +334,8 @@ def check_pair(acc, ia, ib, solo):
                               solo[idx][:300], repr(res[who])[:300], size=ia + ib)
                 return
     acc.ok(hash(('pair', ia, ib)), cls='pairs')
+    if ib == (ia + 1) % len(P):
+        acc.sample({'part': 4, 'a': [A[0], A[2]], 'b': [B[0], B[2]], 'schedules': 20, 'example_schedule': 'ABABAB'})
 
 
 MUTABLE = (list, dict, set, bytearray)
